@@ -10,7 +10,7 @@ exception injected at every call position of `one_transition_spectrum` (purity u
 Clauses and oracles
   fourier   returned raw spectrum == direct half-sided Fourier sum of
             a(t) = sum_a |d_a|^2 exp(-g_a(t) - i w_a t [+ R_aaaa t]) evaluated AT THE RETURNED AXIS
-            (mc/refmodels/absorption_ref.py, no FFT, no index arithmetic)           tol Q 1e-6*peak
+            (mc/refmodels/absorption_ref.py, no FFT, no index arithmetic)           tol Q 1e-8*peak
             A failure is classified: key `fourier/axis-shift=+2/hfft-length` ONLY if the returned
             axis is the central cut of the 2Nt-point axis AND the returned data equal (class R,
             1e-10*peak) the reference evaluated on the grid really sampled by hfft's default
@@ -19,7 +19,7 @@ Clauses and oracles
   scaling   S[k d] == k^2 S[d]                                                       tol R 1e-10
   rotation  S[R d, R r] == S[d, r]                                                   tol R 1e-10
   relabel   S[permuted molecules] == S                                              tol R 1e-10
-  integral  sum_w S_raw dw / sum_k |d_k|^2 is the same with and without coupling     tol Q 2e-3
+  integral  sum_w S_raw dw / sum_k |d_k|^2 is the same with and without coupling     tol Q 5e-3
             (and, at run level, the same for all systems on the same time axis)
   purity    Hamiltonian / dipole operator / tensor arrays identical before and after calculate
             (raw and non-raw), second calculate returns the same spectrum; also after calculate
@@ -37,9 +37,16 @@ from mc.refmodels import absorption_ref as AR
 LEVEL = "model_checking"
 
 TOL_R = 1e-10        # rounding class
-TOL_F = 1e-6         # Fourier clause (relative to the peak of the reference)
-TOL_MONO_SCALE = 1e-6  # monomer: radiative lifetime ~ |d|^2 enters the line (see assumptions)
-TOL_I = 2e-3         # integral clause (tails outside the retained half window)
+# Fourier clause, relative to the peak of the reference.  Both sides use the same samples of
+# C(t) and the same (cubic-spline) double integration, only the transform differs: worst seen
+# on the repaired tree over the thorough grid 6.3e-11; smallest mutant effect 6e-4.
+TOL_F = 1e-8
+# monomer: the radiative rate ~ |d|^2 enters the line; worst physical deviation from the k^2
+# law seen 2.9e-7 (thorough); mutants O(1)
+TOL_MONO_SCALE = 5e-6
+# integral clause (wings outside the retained half window): worst seen 5.5e-4 inside a case,
+# 9.2e-4 across systems (thorough); mutant effects >= 0.16
+TOL_I = 5e-3
 
 VEC = [[1.0, 0.0, 0.0], [0.3, 0.9, 0.1], [-0.4, 0.2, 0.8], [0.5, -0.7, 0.4]]
 POS = [[0.0, 0.0, 0.0], [7.0, 1.0, 0.0], [1.5, 8.0, 2.0]]          # Angstrom
@@ -481,7 +488,7 @@ def eval_case(case, tier=None):
         if info["rates"] is not None:
             wmin = min(float(lines.min() - x[0]), float(x[-1] - lines.max()))
             gmax = float(numpy.max(numpy.abs(numpy.real(info["rates"]))))
-            tol_i = TOL_I + 2.0 * (2.0 / numpy.pi) * gmax / max(wmin, 1e-300)
+            tol_i = TOL_I + 4.0 * (2.0 / numpy.pi) * gmax / max(wmin, 1e-300)
         worst("integral+tensor(rel. to bound)" if spec["tensor"] else "integral",
               rel / tol_i if spec["tensor"] else rel)
         if not rel <= tol_i:
